@@ -8,14 +8,22 @@ PRELUDE = r'''
 // ---------- T7 stubs (field types this unit only stores)
 #[verifier::external_body] #[verifier::reject_recursive_types(K)] #[verifier::reject_recursive_types(V)] pub struct BTreeMap<K, V> { _k: ::core::marker::PhantomData<(K, V)> }
 #[verifier::external_body] #[verifier::reject_recursive_types(K)] pub struct BTreeSet<K> { _k: ::core::marker::PhantomData<K> }
+impl BTreeMap<String, BTreeSet<String>> {
+    /// the type texts recorded for the ReviverFunc / ReplacerFunc footer (end_file writes the footer when this is not empty)
+    pub uninterp spec fn keys(&self) -> Set<Seq<char>>;
+}
 /// outlined (T3): `if self.custom_translations(mapped).is_some() { self.types_for_custom_json_translation.insert(..) }` - bookkeeping for
-/// the reviver footer (C12's domain); touches only that field
+/// the reviver footer; touches only that field and only adds (BTreeMap::insert)
 #[verifier::external_body]
-fn note_custom_translation(seen: &mut BTreeMap<String, BTreeSet<String>>, mapped: &String) { unimplemented!() }
+fn note_custom_translation(seen: &mut BTreeMap<String, BTreeSet<String>>, mapped: &String)
+    ensures old(seen).keys().subset_of(final(seen).keys()),
+{ unimplemented!() }
 /// outlined (T3): `self.types_for_custom_json_translation.entry("Date".to_owned()).or_default();` - registers Date for the reviver footer
-/// (C12's domain); touches only that field
+/// (BTreeMap entry API: the key is present afterwards, the others are kept); touches only that field
 #[verifier::external_body]
-fn note_date_translation(seen: &mut BTreeMap<String, BTreeSet<String>>) { unimplemented!() }
+fn note_date_translation(seen: &mut BTreeMap<String, BTreeSet<String>>)
+    ensures final(seen).keys() == old(seen).keys().insert("Date"@),
+{ unimplemented!() }
 /// outlined (T3): std::iter::repeat(&s).take(n).join_with(sep) - n copies of s separated by sep (itertools)
 #[verifier::external_body]
 fn repeat_join(s: &String, n: usize, sep: &str) -> (r: String)
@@ -36,14 +44,35 @@ SPECIAL = F.SPECIAL_HEAD + [
 UNIT = F.make_unit('fmt_ts', 'TypeScript', TS, 'TypeScript',
                    'TCfg { lang: Lang::TypeScript, map: self.type_mappings@, prefix: Seq::empty(), no_pointer_slice: false }',
                    PRELUDE, SPECIAL,
-                   trusted_extra=['outlined: reviver bookkeeping (touches only types_for_custom_json_translation); repeat(..).take(n).join_with(sep) is n copies joined by sep'])
+                   trusted_extra=['outlined: reviver bookkeeping (touches only types_for_custom_json_translation; entry("Date").or_default() leaves the key Date present and keeps the others; the '
+                                  'conditional insert only adds); repeat(..).take(n).join_with(sep) is n copies joined by sep'],
+                   x12={
+                       'frame': '/*C12: what is recorded for the reviver footer is never lost*/ old(self).types_for_custom_json_translation.keys().subset_of(final(self).types_for_custom_json_translation.keys()),',
+                       'ty': '/*C12: a type expression that prints `Date` has recorded Date for the ReviverFunc / ReplacerFunc footer*/ (r is Ok && reaches(old(self).cfg(), *ty, Kind::DateTime)) ==> final(self).types_for_custom_json_translation.keys().contains("Date"@),',
+                       'gen': '/*C12*/ (r is Ok && reaches_any(old(self).cfg(), *base, parameters@, Kind::DateTime)) ==> final(self).types_for_custom_json_translation.keys().contains("Date"@),',
+                       'special': '/*C12*/ (r is Ok && reaches_special(old(self).cfg(), *special_ty, Kind::DateTime)) ==> final(self).types_for_custom_json_translation.keys().contains("Date"@),',
+                       'inv': '\n                    /*C12*/ old(self).types_for_custom_json_translation.keys().subset_of(self.types_for_custom_json_translation.keys()), forall|k: int| 0 <= k < it.index@ ==> (reaches(c0, #[trigger] parameters@[k], Kind::DateTime) ==> self.types_for_custom_json_translation.keys().contains("Date"@)),',
+                   })
+UNIT.spec_files = list(UNIT.spec_files) + ['helpers.rs']
+
+
+def _search():
+    # the unit serves two properties: a failing input is looked for with the stand-in of the property being checked
+    import os
+    if os.environ.get('VERIF_PID') == 'C12':
+        import helpersearch
+        return helpersearch
+    import typesearch
+    return typesearch
 
 
 def native(workdir):
-    import typesearch
-    return typesearch.native(workdir)
+    return _search().native(workdir)
 
 
 def replay_args(inp):
+    if 'trigger' in inp:
+        import helpersearch
+        return helpersearch.replay_args(inp)
     import typesearch
     return typesearch.replay_args(inp)
